@@ -152,7 +152,11 @@ def render(L):
     if exp["k"] == "defaultExpr" and place["k"] != "entry":
         files["entry"].insert(0, 'const kin = "decoy";')
     if L["decoy"] != "none":
-        files[L["decoy"]].append("type B = number;\nexport type UsesDecoyB = B[];")
+        files[L["decoy"]].append("export type B = number;\nexport type UsesDecoyB = B[];")
+        # a hop file also re-exports everything of the decoy's file: an explicit `export { B } from` wins over that star
+        star = f'export * from {spec_from("hop", L["decoy"])};'
+        if hop and L["decoy"] != "entry" and star not in hop:
+            hop.append(star)
     out = []
     for f, lines in files.items():
         if f == "entry":
